@@ -1,8 +1,8 @@
 #!/bin/bash
-# runs every registered quick check once; prints id, exit code, seconds
+# runs every registered check once (tier $1, default quick; ONLY="C16 C17" restricts the list); prints id, exit code, seconds
 cd "$(dirname "$0")/.."
 mkdir -p out; ./check.py setup || exit 2
-for p in $(python3 -c "import json; print(' '.join(c['property_id'] for c in json.load(open('MANIFEST.json'))['checks']))"); do
+for p in ${ONLY:-$(python3 -c "import json; print(' '.join(c['property_id'] for c in json.load(open('MANIFEST.json'))['checks']))")}; do
   s=$(date +%s); ./check.py $p ${1:-quick} > out/all_$p.log 2>&1; rc=$?; e=$(date +%s)
   echo "$p rc=$rc $((e-s))s $(grep -c VIOLATION out/all_$p.log) violations $(grep TOOL-ERROR out/all_$p.log | head -1 | cut -c1-200)"
 done
